@@ -20,6 +20,7 @@ func cmdSync(args []string) {
 	kind := fs.String("kind", "grow", "grow | shrink | replace")
 	fault := fs.String("fault", "", "role:chunk:mode (send|recv|phase : k : exit|fail)")
 	big := fs.Bool("big", false, "synthetic shard files around the chunk size")
+	sep := fs.Bool("seproot", false, "shard files in a directory of their own")
 	n := fs.Int("n", 1, "scenarios")
 	fs.Parse(args)
 	tw, err := trace.NewWriter(*out)
@@ -30,7 +31,7 @@ func cmdSync(args []string) {
 	defer tw.Close()
 	exe, _ := os.Executable()
 	for i := 0; i < *n; i++ {
-		o := clusterd.SyncOpts{Exe: exe, OldN: *oldN, NewKind: *kind, Fault: *fault, BigFiles: *big}
+		o := clusterd.SyncOpts{Exe: exe, OldN: *oldN, NewKind: *kind, Fault: *fault, BigFiles: *big, SepRoot: *sep}
 		if err := clusterd.RunSync(i, *seed*1000+int64(i), *dir, tw, o); err != nil {
 			fmt.Fprintln(os.Stderr, "driver error:", err)
 			os.Exit(2)
